@@ -15,6 +15,11 @@ CODINGS = ["identity", "gzip", "gzip2", "gzip+garbage", "deflate", "rawdeflate",
            "gzip,deflate", "deflate,gzip", "zstd,gzip", "unknown"]
 
 
+# other spellings of the same codings: the x-gzip alias (RFC 9110 8.4.1.3), alone and inside a stack, and names in
+# another letter case (coding names are case-insensitive); used on a reduced response set
+ALIAS_CODINGS = ["x-gzip", "x-gzip,deflate", "deflate,x-gzip", "GZIP,Deflate"]
+
+
 def payload(n):
     # low-compressibility but deterministic
     return bytes(((i * 7 + (i >> 3) * 13 + 3) % 251) for i in range(n))
@@ -73,6 +78,14 @@ def encode(coding, data):
         return "deflate, gzip", _gz(zlib.compress(data)), []
     if coding == "zstd,gzip":
         return "zstd, gzip", _gz(_zs(data)), []
+    if coding == "x-gzip":
+        return "x-gzip", _gz(data), []
+    if coding == "x-gzip,deflate":
+        return "x-gzip, deflate", zlib.compress(_gz(data)), []
+    if coding == "deflate,x-gzip":
+        return "deflate, x-gzip", _gz(zlib.compress(data)), []
+    if coding == "GZIP,Deflate":
+        return "GZIP, Deflate", zlib.compress(_gz(data)), []
     if coding == "unknown":
         return "x-unknown-coding", data, []
     raise KeyError(coding)
